@@ -583,6 +583,9 @@ def check_L10(ctx, rep):
     if check_bound_tests(cr, rep) < 3:
         from core import Broken
         raise Broken('L10.B: fewer than 3 comparisons against a const generic bound found (BoundedSet expected)')
+    if check_case_table(cr, rep) < 64:
+        from core import Broken
+        raise Broken('L10.C: fewer than 4 x 16 case-table entries of ConstPropagation decided')
     if check_ord_agreement(cr, rep) < 1:
         from core import Broken
         raise Broken('no type with hand-written partial_cmp and cmp found (Dual expected)')
@@ -743,3 +746,179 @@ def analyse_mut(cr, b, m, rep):
                 if o == want_ord and not s.assigned_other and not s.delegs:
                     rep.viol('L10.Q', where, 'no-replace-on-' + o,
                              '%s keeps self although self is %s other' % (m, o))
+
+
+# ------------------------------------------------------------------ L10.C  case table of a flat lattice
+
+def check_case_table(cr, rep):
+    """`ConstPropagation<T>` is the flat lattice Bottom < Constant(c) < Top; its four operations are `match (self, other)` tables over
+    the three constructors in which the payload is touched only through `==`. The table is decided by case analysis over the
+    abstract carrier {Bottom, Constant(a), Constant(b), Top} (a != b): for each of the 16 pairs the first arm whose pattern and
+    guard accept the pair is taken, its effect is read off (value assigned to / returned for the receiver, the returned flag), and
+    compared with the least upper / greatest lower bound of the flat order and with "flag <=> receiver changed"."""
+    from core import Broken
+    D = ['Bottom', ('Constant', 'a'), ('Constant', 'b'), 'Top']
+
+    def lub(s, o):
+        if s == 'Bottom':
+            return o
+        if o == 'Bottom':
+            return s
+        if s == 'Top' or o == 'Top':
+            return 'Top'
+        return s if s == o else 'Top'
+
+    def glb(s, o):
+        if s == 'Top':
+            return o
+        if o == 'Top':
+            return s
+        if s == 'Bottom' or o == 'Bottom':
+            return 'Bottom'
+        return s if s == o else 'Bottom'
+
+    class Unrec(Exception):
+        pass
+
+    def ctor_of(path):
+        d = (path or {}).get('d') or ''
+        for c in ('Bottom', 'Top', 'Constant'):
+            if d.endswith('::' + c):
+                return c
+        return None
+
+    def pmatch(p, v, env):
+        k = p.get('k')
+        if k == 'wild':
+            return True
+        if k == 'bind':
+            env[p['id']] = v
+            return pmatch(p['sub'], v, env) if 'sub' in p else True
+        if k in ('ref', 'deref', 'box'):
+            return pmatch(p['p'], v, env)
+        if k == 'or':
+            return any(pmatch(q, v, env) for q in p['ps'])
+        if k == 'expr':
+            c = ctor_of(p.get('path'))
+            if c is None:
+                raise Unrec('pattern')
+            return v == c
+        if k == 'ts':
+            c = ctor_of(p.get('path'))
+            if c != 'Constant' or len(p['ps']) != 1:
+                raise Unrec('pattern')
+            if not (isinstance(v, tuple) and v[0] == 'Constant'):
+                return False
+            return pmatch(p['ps'][0], ('payload', v[1]), env)
+        raise Unrec('pattern kind %s' % k)
+
+    def ev(e, env, state):
+        """value of an expression; state['self'] is updated by `*this = ..`"""
+        e = strip(e)
+        k = e.get('k')
+        while k in ('addr',) or (k == 'unary' and e.get('op') == 'deref') or (k == 'mcall' and e.get('m') in ('clone', 'borrow')):
+            e = strip(e['e'] if k != 'mcall' else e['r']); k = e.get('k')
+        if k == 'lit':
+            if e['v'] in ('true', 'false'):
+                return e['v'] == 'true'
+            raise Unrec('literal')
+        if k == 'path':
+            if e.get('res') == 'local':
+                if e['id'] not in env:
+                    raise Unrec('local %s' % e.get('n'))
+                return env[e['id']]
+            c = ctor_of(e)
+            if c in ('Bottom', 'Top'):
+                return c
+            raise Unrec('path')
+        if k == 'call':
+            c = ctor_of(strip(e['f'])) if strip(e['f']).get('k') == 'path' else None
+            if c == 'Constant' and len(e['a']) == 1:
+                a = ev(e['a'][0], env, state)
+                if isinstance(a, tuple) and a[0] == 'payload':
+                    return ('Constant', a[1])
+            raise Unrec('call')
+        if k == 'binary' and e['op'] in ('==', '!='):
+            l, r = ev(e['l'], env, state), ev(e['r'], env, state)
+            if not (isinstance(l, tuple) and isinstance(r, tuple)):
+                raise Unrec('comparison')
+            return (l == r) == (e['op'] == '==')
+        if k == 'if':
+            c = ev(e['c'], env, state)
+            if not isinstance(c, bool):
+                raise Unrec('condition')
+            if c:
+                return ev(e['th'], env, state)
+            if 'el' not in e:
+                raise Unrec('if without else')
+            return ev(e['el'], env, state)
+        if k == 'block':
+            for s in e['ss']:
+                if s['k'] == 'item':
+                    continue
+                if s['k'] not in ('semi', 'expr'):
+                    raise Unrec('statement')
+                x = strip(s['e'])
+                if x.get('k') != 'assign':
+                    raise Unrec('statement')
+                l = strip(x['l'])
+                if not (l.get('k') == 'unary' and l['op'] == 'deref' and strip(l['e']).get('k') == 'path' and strip(l['e'])['id'] in state['self_ids']):
+                    raise Unrec('assignment target')
+                state['self'] = ev(x['r'], env, state)
+            if 'e' not in e:
+                raise Unrec('block without value')
+            return ev(e['e'], env, state)
+        raise Unrec('expression kind %s' % k)
+
+    n = 0
+    for path, b in sorted(cr.bodies.items()):
+        if 'constant_propagation::ConstPropagation<T> as lattice::Lattice>::' not in path or b['name'] not in ('join_mut', 'meet_mut', 'join', 'meet'):
+            continue
+        rep.functions.add(path)
+        t = strip(b['tree'])
+        m = strip(t['e']) if t.get('k') == 'block' and 'e' in t else t
+        if m.get('k') != 'match' or strip(m['e']).get('k') != 'tup':
+            raise Broken('L10.C: %s is not a match over (self, other)' % path)
+        want = lub if b['name'].startswith('join') else glb
+        mut = b['name'].endswith('_mut')
+        try:
+            for s in D:
+                for o in D:
+                    hit = None
+                    for a in m['arms']:
+                        env = {}
+                        ps = a['p']['ps'] if a['p'].get('k') == 'tup' else None
+                        if ps is None or len(ps) != 2:
+                            raise Unrec('arm pattern')
+                        if not (pmatch(ps[0], s, env) and pmatch(ps[1], o, env)):
+                            continue
+                        self_ids = {bb['id'] for bb in pat_bindings(ps[0]) if env.get(bb['id']) == s and not (isinstance(env.get(bb['id']), tuple) and env[bb['id']][0] == 'payload')}
+                        state = {'self': s, 'self_ids': self_ids}
+                        if 'g' in a and ev(a['g'], env, state) is not True:
+                            continue
+                        hit = (a, env, state)
+                        break
+                    if hit is None:
+                        raise Unrec('no arm for (%s, %s)' % (s, o))
+                    a, env, state = hit
+                    res = ev(a['b'], env, state)
+                    n += 1
+                    show = lambda v: v if isinstance(v, str) else '%s(%s)' % v
+                    if mut:
+                        new, flag = state['self'], res
+                        if new != want(s, o):
+                            rep.viol('L10', path, 'case-table-value:%s,%s' % (show(s), show(o)),
+                                     '%s on (%s, %s) leaves the receiver at %s, the %s bound of the flat order is %s' % (
+                                         b['name'], show(s), show(o), show(new), 'least upper' if want is lub else 'greatest lower', show(want(s, o))), loc=cr.loc(a['b']))
+                        if flag != (new != s):
+                            rep.viol('L10', path, 'case-table-flag:%s,%s' % (show(s), show(o)),
+                                     '%s on (%s, %s) returns %s although the receiver %s (%s -> %s)' % (
+                                         b['name'], show(s), show(o), str(flag).lower(), 'changed' if new != s else 'did not change', show(s), show(new)), loc=cr.loc(a['b']))
+                    else:
+                        if res != want(s, o):
+                            rep.viol('L10', path, 'case-table-value:%s,%s' % (show(s), show(o)),
+                                     '%s of (%s, %s) is %s, the bound of the flat order is %s' % (b['name'], show(s), show(o), show(res), show(want(s, o))), loc=cr.loc(a['b']))
+        except Unrec as ex:
+            raise Broken('L10.C: %s: shape not recognised (%s)' % (path, ex))
+        rep.inst('L10.C', '%s: 16 constructor pairs decided against the flat order' % path)
+    return n
